@@ -24,7 +24,7 @@ def check(ctx):
     vlib.translate(ctx, [("startup_guard", "StartupGuard.lean"), ("event_tasks", "EventTasks.lean"),
                          ("scheduler_tasks", "SchedulerTasks.lean"),
                          # closure body of Queue::schedule_task regenerated from the source; C09Src: generated = model
-                         ("pure_fns:C09", "PureFns.lean")])
+                         ("pure_fns:C09", "PureFnsC09.lean")])
     vlib.prove(ctx, ["KrillModel.Props.C09", "KrillModel.Props.C09Src"])
     found = False
     if vlib.build_harness(ctx, ["queue"]):
